@@ -603,6 +603,72 @@ def long_tuples():
     return out
 
 
+def work_reuse(task):
+    """The property's own oracle applied to a tokenizer that was used before (the statements quantify over all
+    streams whatever the tokenizer did earlier): every kind of earlier use (complete, abandoned / kept / pre-requested
+    generator, run cut short by an exception) on every short first stream, then every short second stream."""
+    from . import chk_reuse as cr
+
+    oracle, tuples, L1, L2 = task
+    ST = _auditok()["ST"]
+    cov = {"evaluations": 0, "distinct_nontrivial": 0, "traces_validated_against_impl": 0, "reused_tokenizer_runs": 0, "samples": []}
+    viol = []
+    nviol = 0
+    for params in tuples:
+        mn, mx, ms, im, is_, mode = params
+        seen = set()
+        for n1 in range(L1 + 1):
+            for b1 in range(1 << n1):
+                f1 = frames_of(n1, b1)
+                ntok = len(ST(_valid_tuple, *params).tokenize(Src(f1)))
+                for use in cr.uses_of(ntok, n1) + [("pre_gen",)]:
+                    tok0 = cr.make_tok(ST, params)
+                    if use[0] != "pre_gen":
+                        cr.apply_use(tok0, use, f1)
+                    sig = (use[0] == "pre_gen", cr.leftover_signature(tok0)) if use[0] != "pre_gen" else ("pre", n1, b1)
+                    if sig in seen:
+                        continue
+                    seen.add(sig)
+                    for n2 in range(L2 + 1):
+                        for b2 in range(1 << n2):
+                            f2 = frames_of(n2, b2)
+                            fl2 = flags_of(n2, b2)
+                            tok = cr.make_tok(ST, params)
+                            if use[0] == "pre_gen":
+                                pending = tok.tokenize(Src(f2), generator=True)
+                                cr.apply_use(tok, ("list",), f1)
+                                toks = list(pending)
+                            else:
+                                cr.apply_use(tok, use, f1)
+                                toks = tok.tokenize(Src(f2))
+                            cov["evaluations"] += 1
+                            cov["reused_tokenizer_runs"] += 1
+                            cov["traces_validated_against_impl"] += 1
+                            if toks:
+                                cov["distinct_nontrivial"] += 1
+                            if oracle == "C01":
+                                msg = tm.check_c01(f2, toks)
+                            elif oracle == "C02":
+                                msg = tm.check_c02(toks, mn, mx, mode)
+                            elif oracle == "C03":
+                                msg = tm.check_c03([([f[1] for f in d], a, b) for d, a, b in toks], mn, mx, ms, im, is_, mode)
+                            elif oracle == "C04":
+                                se = [(a, b) for _, a, b in toks]
+                                exp = tm.segment(fl2, mn, mx, ms, mode)
+                                msg = None if se == exp else "delivered %r, greedy segmentation is %r" % (se, exp)
+                            else:
+                                msg = None
+                            if msg:
+                                nviol += 1
+                                if len(viol) < 6:
+                                    key = "tuple=%s earlier=%s use=%s stream=%s" % (",".join(map(str, params)), stream_str(n1, b1),
+                                                                                   "/".join(map(str, use)), stream_str(n2, b2))
+                                    viol.append((key, "tokenizer used before (%s on %s): %s" % ("/".join(map(str, use)), stream_str(n1, b1) or "-", msg),
+                                                 {"kind": "tokreuse", "oracle": oracle, "params": list(params), "first": stream_str(n1, b1),
+                                                  "use": list(use), "stream": stream_str(n2, b2)}))
+    return {"cov": cov, "viol": viol, "nviol": nviol}
+
+
 def work_model_selfcheck(task):
     """RefTok (incremental) against segment() (declarative) - model vs model."""
     tuples, L = task
@@ -736,6 +802,13 @@ def run(prop, tier):
     for tuples, d in cover:
         for c in _interleave(tuples, common.NPROC * 4):
             tasks.append(("cover", (prop, c, d)))
+    if prop in ("C01", "C02", "C03", "C04"):
+        rt = [t for t in tm.grid(3) if prop != "C04" or t[3] <= 1]
+        if tier == "quick":
+            rt = [t for i, t in enumerate(rt) if t[1] == 3 or i % 2 == 0]
+        L1, L2 = (5, 4) if tier == "quick" else (7, 6)
+        for c in _interleave(rt, common.NPROC * 2):
+            tasks.append(("reuse", (prop, c, L1, L2)))
     lt = [t for t in long_tuples() if prop != "C04" or t[3] <= 1]
     for c in _interleave(lt, common.NPROC * 2):
         tasks.append(("long", (prop, c, 300 if tier == "quick" else 1000)))
@@ -761,11 +834,16 @@ def _dispatch(t):
         return work_enum(task)
     if kind == "long":
         return work_long(task)
+    if kind == "reuse":
+        return work_reuse(task)
     return work_cover(task)
 
 
 def replay(case):
     """Re-execute one recorded case; returns complaint or None."""
+    if case["kind"] == "tokreuse":
+        part = work_reuse((case["oracle"], [tuple(case["params"])], len(case["first"]), len(case["stream"])))
+        return part["viol"][0][1] if part["viol"] else None
     if case["kind"] == "lazy":
         from . import chk_split
 
